@@ -4,7 +4,10 @@ import (
 	_ "embed"
 	"encoding/json"
 	"fmt"
+	"os"
 	"sort"
+	"strconv"
+	"strings"
 	"sync"
 	"sync/atomic"
 	"time"
@@ -312,7 +315,7 @@ func run(r *core.Run) {
 			{name: "depth 1, buffers 0..24 bytes, slab variants (alignment 0..7 x clipped/spare capacity), views at the buffer ends, thinned alphabet, start states inc + detached", sizes: seq(0, 24), depth: 1, level: lvMin, aligns: allAligns, spares: []bool{true, false}, variantsOnly: true},
 			{name: "depth 1, buffers 0..8 bytes, slab variants, every view, thinned alphabet", sizes: seq(0, 8), depth: 1, countFrom: 2, level: lvMin, aligns: allAligns, spares: []bool{true, false}},
 			{name: "depth 2, buffers 0..8 bytes", sizes: seq(0, 8), depth: 2, countFrom: 2, level: lvSmall, aligns: []int{0}, spares: []bool{false}},
-			{name: "depth 1, buffers of 31,32,33,48,63,64 bytes, full alphabet, 2 slab variants", sizes: []int{31, 32, 33, 48, 63, 64}, depth: 1, level: lvFull, aligns: []int{0, 3}, spares: []bool{false, true}},
+			{name: "depth 1, buffers of 31,32,33,48,63,64 bytes, views at the buffer ends, full alphabet, 4 slab variants", sizes: []int{31, 32, 33, 48, 63, 64}, depth: 1, level: lvFull, aligns: []int{0, 3}, spares: []bool{false, true}, variantsOnly: true},
 			{name: "depth 3, buffers 0..3 bytes", sizes: seq(0, 3), depth: 3, countFrom: 3, level: lvSmall, aligns: []int{0}, spares: []bool{false}},
 			{name: "depth 2, buffers 0..4 bytes, full alphabet at depth 1", sizes: seq(0, 4), depth: 2, countFrom: 3, level: lvFull, aligns: []int{0}, spares: []bool{false}},
 		}
@@ -320,7 +323,12 @@ func run(r *core.Run) {
 	var completed []string
 	var stats []map[string]interface{}
 	all := true
-	for _, b := range bounds {
+	only := os.Getenv("C17_BOUNDS") // development aid: comma separated indices of the bounds to run (the run is then not exhaustive)
+	for bi, b := range bounds {
+		if only != "" && !strings.Contains(","+only+",", ","+strconv.Itoa(bi)+",") {
+			all = false
+			continue
+		}
 		var tasks []Config
 		for _, sp := range b.spares {
 			for _, al := range b.aligns {
